@@ -177,3 +177,39 @@ Example roundtrip_demo :
   | inl _ => False
   end.
 Proof. vm_compute. reflexivity. Qed.
+
+(* ---- the whole Gaussian94 file: electron blocks + ECP blocks (Model/G94Ecp.v).  The reader takes the momenta of the potentials
+   from the `-ECP lmax nelec` line and the ORDER of the blocks, never from their titles: the round trip holds exactly when the
+   momenta are [L, 0, ..., L-1] for L+1 potentials.  (Imported last: the record G94Ecp.gpot shares its field names with
+   NwchemEcp.epot.) ---- *)
+From BSE Require Import Model.G94Ecp Proofs.G94EcpDefs.
+From BSE Require Proofs.G94EcpSpec.
+
+Theorem gaussian94_ecp_roundtrip : g94_ecp_roundtrip_stmt.
+Proof. exact G94EcpSpec.g94_ecp_roundtrip. Qed.
+Print Assumptions gaussian94_ecp_roundtrip.
+
+Theorem gaussian94_whole_file_roundtrip : g94_all_roundtrip_stmt.
+Proof. exact G94EcpSpec.g94_all_roundtrip. Qed.
+Print Assumptions gaussian94_whole_file_roundtrip.
+
+Theorem gaussian94_ecp_input_order_irrelevant : g94_ecp_order_stmt.
+Proof. exact G94EcpSpec.g94_ecp_order_thm. Qed.
+Print Assumptions gaussian94_ecp_input_order_irrelevant.
+
+Theorem gaussian94_ecp_no_number_lost : g94_ecp_no_number_lost_stmt.
+Proof. exact G94EcpSpec.g94_ecp_no_number_lost. Qed.
+Print Assumptions gaussian94_ecp_no_number_lost.
+
+(* the known finding "gaussian94 required-read-fails: ecp-am-gap" as a theorem about the model: momenta {0,2,3} are written
+   and cannot be read back; the ECP type is not written (spin-orbit comes back scalar) *)
+Theorem gaussian94_ecp_noncontiguous_refuted : g94_ecp_noncontiguous_stmt.
+Proof. exact G94EcpSpec.g94_ecp_noncontiguous. Qed.
+Print Assumptions gaussian94_ecp_noncontiguous_refuted.
+
+Theorem gaussian94_ecp_type_lost : g94_ecp_type_stmt.
+Proof. exact G94EcpSpec.g94_ecp_type. Qed.
+Print Assumptions gaussian94_ecp_type_lost.
+
+Example gaussian94_ecp_example : g94_ecp_example_stmt.
+Proof. exact G94EcpSpec.g94_ecp_example. Qed.
